@@ -82,6 +82,9 @@ def _flatten_hyp(h, qf, univ, guard=None):
     if k == 'forall':
         body = h[2]
         vars_ = list(h[1])
+        if guard is not None:
+            body = ('implies', guard, body)
+            guard = None
         # pull nested foralls in positive position
         while True:
             if body[0] == 'forall':
@@ -98,10 +101,11 @@ def _flatten_hyp(h, qf, univ, guard=None):
                 body = ('implies', ('and', [body[1], body[2][1]]), body[2][2])
                 continue
             break
-        if guard is not None:
-            body = ('implies', guard, body)
         if not is_qf(body):
             # split conjunction bodies containing quantifiers
+            if body[0] == 'implies' and body[2][0] == 'implies' and is_qf(body[1]) and is_qf(body[2][1]):
+                _flatten_hyp(('forall', vars_, ('implies', ('and', [body[1], body[2][1]]), body[2][2])), qf, univ, None)
+                return
             if body[0] == 'implies' and body[2][0] == 'and':
                 for part in body[2][1]:
                     _flatten_hyp(('forall', vars_, ('implies', body[1], part)), qf, univ, None)
@@ -259,7 +263,7 @@ def instantiate(qf, univ, goal, rounds=2, extra_terms=(), budget=60000, sum_fram
     total = 0
     sums_done = set()
     triggers = {}
-    usage_acc = {'sel': {}, 'apps': {}, 'seen': set(), 'appseen': set()}
+    usage_acc = {'sel': {}, 'apps': {}, 'seen': set(), 'appseen': set(), 'symcache': {}}
     new_exprs = ground + [goal] + list(extra_terms)
     for rnd in range(rounds + 1):
         t_new = index_terms(new_exprs, bound, seen_terms)
@@ -305,10 +309,12 @@ def instantiate(qf, univ, goal, rounds=2, extra_terms=(), budget=60000, sum_fram
                     else:
                         for kind, key, argpos in ps:
                             if kind == 'sel':
-                                src = dict(usage['sel'].get(key) or {})
-                                if key is None and not src:
-                                    src = dict(terms)
-                                if key is not None:
+                                src = {}
+                                if key is None:
+                                    src = dict(usage['sel'].get(None) or {}) or dict(terms)
+                                else:
+                                    for kk in key:
+                                        src.update(usage['sel'].get(kk) or {})
                                     src.update(usage['sel'].get('unk') or {})      # indices into arrays of unknown base
                                 for t in src.values():
                                     if argpos is not None:
@@ -381,15 +387,36 @@ def _atoms_of(tree):
 
 
 def _base_array(a):
-    while z3.is_app(a) and a.decl().kind() == z3.Z3_OP_STORE:
+    """the array symbol an array-valued term is derived from: strips Store chains and row selections (rows of nested lists)"""
+    while z3.is_app(a) and a.decl().kind() in (z3.Z3_OP_STORE, z3.Z3_OP_SELECT):
         a = a.arg(0)
     return a
+
+
+def _array_symbols(a, cache=None):
+    """ids of all array-sorted uninterpreted constants occurring in the array-valued term a (a row of a nested list, a
+    Store chain, an ite of arrays, ...): an index used on `a` may be an index into any of them.
+    (z3 AST ids are only unique among LIVE terms: the cache keeps the term alive and lives no longer than one query)"""
+    i = a.get_id()
+    if cache is not None:
+        hit = cache.get(i)
+        if hit is not None:
+            return hit[1]
+    r = set()
+
+    def visit(x):
+        if z3.is_const(x) and x.decl().kind() == z3.Z3_OP_UNINTERPRETED and z3.is_array(x):
+            r.add(x.get_id())
+    _walk(a, set(), visit)
+    if cache is not None:
+        cache[i] = (a, r)
+    return r
 
 
 def term_usage(exprs, bound_ids, acc=None):
     """ground index terms per base array, ground applications per uninterpreted function (incremental when acc is given)"""
     if acc is None:
-        acc = {'sel': {}, 'apps': {}, 'seen': set(), 'appseen': set()}
+        acc = {'sel': {}, 'apps': {}, 'seen': set(), 'appseen': set(), 'symcache': {}}
     sel, apps = acc['sel'], acc['apps']
     seen = acc['seen']
 
@@ -400,9 +427,9 @@ def term_usage(exprs, bound_ids, acc=None):
         if kd in (z3.Z3_OP_SELECT, z3.Z3_OP_STORE):
             idx = x.arg(1)
             if idx.sort() == I and not _mentions(idx, bound_ids):
-                b = _base_array(x.arg(0))
-                key = b.get_id() if z3.is_const(b) else 'unk'
-                sel.setdefault(key, {})[idx.get_id()] = idx
+                keys = _array_symbols(x.arg(0), acc.setdefault('symcache', {})) or {'unk'}
+                for key in keys:
+                    sel.setdefault(key, {})[idx.get_id()] = idx
                 sel.setdefault(None, {})[idx.get_id()] = idx
         elif kd == z3.Z3_OP_UNINTERPRETED and x.num_args() > 0 and not _mentions(x, bound_ids):
             if x.get_id() not in acc['appseen']:
@@ -425,8 +452,8 @@ def var_patterns(vars_, body):
         kd = x.decl().kind()
         if kd == z3.Z3_OP_SELECT:
             idx = x.arg(1)
-            b = _base_array(x.arg(0))
-            key = b.get_id() if (z3.is_const(b) and b.get_id() not in ids) else None
+            syms = frozenset(k for k in _array_symbols(x.arg(0)) if k not in ids)
+            key = syms if syms else None
             if idx.get_id() in ids:
                 pats.setdefault(idx.get_id(), []).append(('sel', key, None))
             elif z3.is_app(idx) and idx.decl().kind() in (z3.Z3_OP_ADD, z3.Z3_OP_SUB):
